@@ -16,6 +16,9 @@ import (
 	"veriftxn/common"
 	_ "veriftxn/unibk"
 
+	"github.com/pingcap/kvproto/pkg/errorpb"
+	"github.com/pingcap/kvproto/pkg/kvrpcpb"
+	"github.com/tikv/client-go/v2/tikvrpc"
 	"github.com/tikv/client-go/v2/verifrt/ev"
 	"github.com/tikv/client-go/v2/verifrt/sched"
 	"github.com/tikv/client-go/v2/verifrt/txnh"
@@ -178,32 +181,7 @@ func main() {
 								sc.Progs = append(sc.Progs, []txnh.Program{{Mode: ct.mode, Ops: ct.ops}})
 							}
 							sc.SetupFn = func(s *txnh.TxnScenario) { common.SeedKey(s, "a", "base") }
-							sc.CheckFn = func(s *txnh.TxnScenario, x *sched.Exec) []sched.Violation {
-								if x.Horizon || x.Deadlock || sched.Running() > 0 {
-									return nil // not drained: inconclusive (counted by the engine)
-								}
-								ended := map[uint64]*txnh.TxnRec{}
-								for _, t := range s.H.Txns {
-									switch t.Outcome {
-									case "committed", "failed", "rolledback":
-										ended[t.StartTS] = t
-									}
-								}
-								var out []sched.Violation
-								for _, l := range s.W.B.Locks() {
-									if t, ok := ended[l.StartTS]; ok {
-										cls := "T"
-										if t.Client != 0 {
-											cls = "C"
-										}
-										out = append(out, sched.Violation{
-											Key:  fmt.Sprintf("leftover-lock:%s:%s:%s", t.Mode, t.Outcome, l.Type),
-											What: fmt.Sprintf("%s transaction %s (start=%d) ended %s %q with op errors %v, all background work drained, clock not advanced past any TTL (virtual now=%v), but %s lock on %q is still in the store", cls, t.Prog, t.StartTS, t.Outcome, t.CommitErr, t.OpErrs, time.Duration(sched.NowNS()), l.Type, l.Key),
-										})
-									}
-								}
-								return out
-							}
+							sc.CheckFn = leftover
 							return sc
 						}
 						specs[name] = mk
@@ -221,6 +199,90 @@ func main() {
 			}
 		}
 	}
+	// Region errors during the clean-up: every work-after-the-decision RPC of T (commit of secondaries,
+	// BatchRollback, PessimisticRollback) may be answered with a region error - NotLeader, EpochNotMatch,
+	// ServerIsBusy, StaleCommand, UndeterminedResult - or meet a real split of its region right before
+	// delivery (one deviation): the request has to be retried, no lock may stay.
+	{
+		c := txnh.Op{Kind: "commit"}
+		rb := txnh.Op{Kind: "rollback"}
+		type fam struct {
+			name string
+			pess bool
+			ops  []txnh.Op
+			seed []string
+		}
+		fams := []fam{
+			{"set(a);set(b);commit", false, []txnh.Op{op("set", "a"), op("set", "b"), c}, nil},
+			{"set(b);delete(a);commit", false, []txnh.Op{op("set", "b"), op("delete", "a"), c}, nil},
+			{"insert(a:exists);set(b);commit", false, []txnh.Op{op("insert", "a"), op("set", "b"), c}, []string{"a", "base"}},
+			{"P:lock(a,b);set(a);set(b);commit", true, []txnh.Op{{Kind: "lock", Keys: []string{"a", "b"}}, op("set", "a"), op("set", "b"), c}, nil},
+			{"P:lock(a,b);set(a);rollback", true, []txnh.Op{{Kind: "lock", Keys: []string{"a", "b"}}, op("set", "a"), rb}, nil},
+			{"P:lock(a,b);set(a);commit", true, []txnh.Op{{Kind: "lock", Keys: []string{"a", "b"}}, op("set", "a"), c}, nil},
+		}
+		for _, bk := range common.BackendsTier(run.Thorough()) {
+			for _, m := range common.ModesWithDeclined(bk) {
+				for _, f := range fams {
+					if f.pess != m.Pessimistic {
+						continue
+					}
+					bk, m, f := bk, m, f
+					lo := common.Layout{Name: "split@b", Splits: []string{"b"}}
+					name := fmt.Sprintf("%s/%s/%s/T=%s/region-error-during-clean-up", bk.Name, lo.Name, m, f.name)
+					mk := func() *txnh.TxnScenario {
+						sc := &txnh.TxnScenario{ID: name, NewBackend: func() txnh.Backend { return bk.New(lo.Splits) }, Keys: keys,
+							Progs: [][]txnh.Program{{{Mode: m, Ops: f.ops, KeepGoing: true}}}}
+						sc.SetupFn = func(s *txnh.TxnScenario) {
+							if len(f.seed) > 0 {
+								common.SeedKey(s, f.seed...)
+							}
+						}
+						sc.MenuFn = func(s *txnh.TxnScenario, e *sched.Event) []sched.Dev {
+							req, _ := e.Payload.(*tikvrpc.Request)
+							if e.Actor != 0 || e.Kind != sched.KRPC || req == nil {
+								return nil
+							}
+							switch req.Type {
+							case tikvrpc.CmdBatchRollback, tikvrpc.CmdPessimisticRollback:
+							case tikvrpc.CmdCommit:
+								if req.Commit().GetCommitRole() != kvrpcpb.CommitRole_Secondary {
+									return nil
+								}
+							default:
+								return nil
+							}
+							var ds []sched.Dev
+							for _, d := range common.FaultMenu(s.W, e, true) {
+								if d.Kind == txnh.DevRegionErr || d.Kind == txnh.DevHook {
+									ds = append(ds, d)
+								}
+							}
+							ds = append(ds, sched.Dev{Name: "undetermined-result", Kind: txnh.DevRegionErr, Arg: &errorpb.Error{Message: "injected", UndeterminedResult: &errorpb.UndeterminedResult{Message: "injected"}}})
+							return ds
+						}
+						sc.CheckFn = leftover
+						return sc
+					}
+					specs[name] = mk
+					jobs = append(jobs, sched.Job{Name: name, Run: func(dl time.Time) sched.Report {
+						sc := mk()
+						x := &sched.Explorer{Sc: sc, B: sched.Bounds{P: 0, F: 1, Horizon: 400, EarlyTimers: true, Deadline: dl}}
+						x.Outcome = func(e *sched.Exec) string {
+							t := sc.H.Txns[0]
+							devs := ""
+							for _, r := range sc.W.Log() {
+								if r.Dev != 0 {
+									devs += fmt.Sprintf(" %s!%d", r.Cmd, r.Dev)
+								}
+							}
+							return t.Outcome + ":" + t.CommitErr + devs
+						}
+						return x.Explore(false)
+					}})
+				}
+			}
+		}
+	}
 	if common.HandleReplay(run, jobs, func(name string) sched.Scenario {
 		if mk, ok := specs[name]; ok {
 			return mk()
@@ -231,12 +293,40 @@ func main() {
 	}
 	res := sched.RunSharded(jobs, budget)
 	common.Finish(run, jobs, res, common.FinishOpts{
-		Bounds: map[string]any{"program_depth_steps": depth, "preemptions": P, "faults": 0, "keys": keys, "layout": "split@b", "contenders": len(contenders)},
+		Bounds: map[string]any{"program_depth_steps": depth, "preemptions": P, "faults": "0 (1 region error in the clean-up family)", "keys": keys, "layout": "split@b", "contenders": len(contenders)},
 		Rule: "every program of transaction T with <= depth steps from the per-mode alphabet (set/delete/insert, lock calls: plain, return-values, no-wait, check-existence, lock-only-if-exists, multi-key; aggressive-locking stages start{...}retry{...}done/cancel) ending in commit or rollback, continuing after failed calls, x contending transaction C {none, optimistic writer of a, pessimistic locker of a, pessimistic locker of b then a (deadlock shape)}; " +
-			"every interleaving of T's and C's seam events with <= P preemptions on the real client; no message is lost. Oracle: when everything has drained, no lock of an ended transaction is in the store. distinct_nontrivial = distinct (T outcome, error list) classes",
+			"every interleaving of T's and C's seam events with <= P preemptions on the real client; no message is lost. Plus 6 two-region programs of T alone with one region error (NotLeader, EpochNotMatch, ServerIsBusy, StaleCommand, UndeterminedResult) or a real split at any of its clean-up RPCs (commit of secondaries, BatchRollback, PessimisticRollback). Oracle: when everything has drained, no lock of an ended transaction is in the store. distinct_nontrivial = distinct (T outcome, error list) classes",
 		Assumptions: []string{
 			"seam-granularity interleavings; callers end an aggressive-locking stage (done/cancel) before commit/rollback, as the API requires",
 			"'drained' = no pending seam event and no one-shot virtual timer left; virtual back-off sleeps (milliseconds) elapse, lock TTLs (seconds) do not",
 		},
 	})
+}
+
+// leftover: once everything has drained, no lock of an ended transaction is in the store.
+func leftover(s *txnh.TxnScenario, x *sched.Exec) []sched.Violation {
+	if x.Horizon || x.Deadlock || sched.Running() > 0 {
+		return nil // not drained: inconclusive (counted by the engine)
+	}
+	ended := map[uint64]*txnh.TxnRec{}
+	for _, t := range s.H.Txns {
+		switch t.Outcome {
+		case "committed", "failed", "rolledback":
+			ended[t.StartTS] = t
+		}
+	}
+	var out []sched.Violation
+	for _, l := range s.W.B.Locks() {
+		if t, ok := ended[l.StartTS]; ok {
+			cls := "T"
+			if t.Client != 0 {
+				cls = "C"
+			}
+			out = append(out, sched.Violation{
+				Key:  fmt.Sprintf("leftover-lock:%s:%s:%s", t.Mode, t.Outcome, l.Type),
+				What: fmt.Sprintf("%s transaction %s (start=%d) ended %s %q with op errors %v, all background work drained, clock not advanced past any TTL (virtual now=%v), but %s lock on %q is still in the store", cls, t.Prog, t.StartTS, t.Outcome, t.CommitErr, t.OpErrs, time.Duration(sched.NowNS()), l.Type, l.Key),
+			})
+		}
+	}
+	return out
 }
